@@ -24,6 +24,8 @@ pub enum FileKind {
     Bytes(Vec<u8>),
     Dir,
     Missing,
+    /// a named pipe whose writer delivers the text once the program opens it
+    Fifo(String),
 }
 
 #[derive(Clone, Debug, PartialEq)]
@@ -45,6 +47,7 @@ impl CliCheck {
                 FileKind::Bytes(b) => json!({"name": n, "bytes": b}),
                 FileKind::Dir => json!({"name": n, "dir": true}),
                 FileKind::Missing => json!({"name": n, "missing": true}),
+                FileKind::Fifo(t) => json!({"name": n, "fifo": t}),
             }).collect::<Vec<_>>(),
             "stdin": self.stdin,
         })
@@ -56,6 +59,8 @@ impl CliCheck {
             let n = f.get("name")?.as_str()?.to_string();
             let k = if let Some(t) = f.get("text").and_then(|x| x.as_str()) {
                 FileKind::Text(t.to_string())
+            } else if let Some(t) = f.get("fifo").and_then(|x| x.as_str()) {
+                FileKind::Fifo(t.to_string())
             } else if let Some(b) = f.get("bytes").and_then(|x| x.as_array()) {
                 FileKind::Bytes(b.iter().map(|x| x.as_u64().unwrap_or(0) as u8).collect())
             } else if f.get("dir").is_some() {
@@ -77,6 +82,7 @@ impl CliCheck {
         self.argv.iter().map(|a| 50 + a.len()).sum::<usize>()
             + self.files.iter().map(|(_, k)| match k {
                 FileKind::Text(t) => 20 + t.len(),
+                FileKind::Fifo(t) => 40 + t.len(),
                 FileKind::Bytes(b) => 20 + b.len(),
                 _ => 20,
             }).sum::<usize>()
@@ -102,7 +108,13 @@ impl CliCheck {
             }
         }
         for (i, (_, k)) in self.files.iter().enumerate() {
-            if let FileKind::Text(t) = k {
+            if let FileKind::Fifo(t) = k {
+                let mut n = self.clone();
+                n.files[i].1 = FileKind::Text(t.clone());
+                out.push(n);
+            }
+            if let FileKind::Text(t) | FileKind::Fifo(t) = k {
+                let is_fifo = matches!(k, FileKind::Fifo(_));
                 let chars: Vec<char> = t.chars().collect();
                 for cut in [chars.len() / 2, 1] {
                     if cut == 0 {
@@ -111,7 +123,7 @@ impl CliCheck {
                     for start in (0..chars.len()).step_by(cut) {
                         let cand: String = chars[..start].iter().chain(chars[(start + cut).min(chars.len())..].iter()).collect();
                         let mut n = self.clone();
-                        n.files[i].1 = FileKind::Text(cand);
+                        n.files[i].1 = if is_fifo { FileKind::Fifo(cand) } else { FileKind::Text(cand) };
                         out.push(n);
                     }
                 }
@@ -182,7 +194,7 @@ fn resolve(c: &CliCheck) -> Resolved {
         if next_file {
             next_file = false;
             match c.files.iter().find(|(n, _)| n == a).map(|(_, k)| k) {
-                Some(FileKind::Text(t)) => r.code.push_str(t),
+                Some(FileKind::Text(t)) | Some(FileKind::Fifo(t)) => r.code.push_str(t),
                 _ => r.has_error = true,
             }
         } else if next_limit {
@@ -240,6 +252,8 @@ fn run_process(c: &CliCheck, serial: u64) -> Ran {
     let dir = std::env::temp_dir().join(format!("simcli-{}-{}-{}", unsafe { libc::getppid() }, std::process::id(), serial));
     let _ = std::fs::remove_dir_all(&dir);
     std::fs::create_dir_all(&dir).unwrap_or_else(|_| crate::parent::harness_error("cannot create temp dir"));
+    let mut fifos: Vec<(std::ffi::CString, Vec<u8>)> = Vec::new();
+    let mut writers = Vec::new();
     for (n, k) in &c.files {
         let p = dir.join(n);
         match k {
@@ -247,6 +261,13 @@ fn run_process(c: &CliCheck, serial: u64) -> Ran {
             FileKind::Bytes(b) => std::fs::write(&p, b).unwrap(),
             FileKind::Dir => std::fs::create_dir_all(&p).unwrap(),
             FileKind::Missing => {}
+            FileKind::Fifo(t) => {
+                let cp = std::ffi::CString::new(p.to_string_lossy().as_bytes()).unwrap();
+                if unsafe { libc::mkfifo(cp.as_ptr(), 0o600) } != 0 {
+                    crate::parent::harness_error("cannot create a named pipe");
+                }
+                fifos.push((cp, t.as_bytes().to_vec()));
+            }
         }
     }
     let stdin_path = dir.join("stdin.bin");
@@ -282,6 +303,22 @@ fn run_process(c: &CliCheck, serial: u64) -> Ran {
     let t0 = Instant::now();
     let mut hang = false;
     let status = loop {
+        // the writer end of a named pipe can be opened as soon as the program waits in open()
+        fifos.retain(|(path, text)| {
+            let fd = unsafe { libc::open(path.as_ptr(), libc::O_WRONLY | libc::O_NONBLOCK | libc::O_CLOEXEC) };
+            if fd < 0 {
+                return true;
+            }
+            let text = text.clone();
+            writers.push(std::thread::spawn(move || {
+                use std::io::Write;
+                use std::os::unix::io::FromRawFd;
+                unsafe { libc::fcntl(fd, libc::F_SETFL, 0) };
+                let mut f = unsafe { std::fs::File::from_raw_fd(fd) };
+                let _ = f.write_all(&text);
+            }));
+            false
+        });
         match child.try_wait() {
             Ok(Some(s)) => break Some(s),
             Ok(None) => {
@@ -296,6 +333,9 @@ fn run_process(c: &CliCheck, serial: u64) -> Ran {
             Err(_) => break None,
         }
     };
+    for w in writers {
+        let _ = w.join();
+    }
     // the child shared our open file description: where did it leave the offset?
     let stdin_offset = unsafe { libc::lseek(fd, 0, libc::SEEK_CUR) } as i64;
     let r = Ran {
@@ -334,6 +374,17 @@ static SERIAL: std::sync::atomic::AtomicU64 = std::sync::atomic::AtomicU64::new(
 
 pub fn evaluate(c: &CliCheck) -> Verdict {
     let mut v = Verdict::default();
+    // one writer per named pipe: a pipe named by two -f options is not a history we can drive
+    for (n, k) in &c.files {
+        if matches!(k, FileKind::Fifo(_)) && c.argv.iter().filter(|a| *a == n).count() > 1 {
+            v.add("invalid_fifo_named_twice", 1);
+            return v;
+        }
+    }
+    let nfifo = c.files.iter().filter(|(_, k)| matches!(k, FileKind::Fifo(_))).count() as u64;
+    if nfifo > 0 {
+        v.add("fired_code_through_named_pipe", nfifo);
+    }
     let r = resolve(c);
     let peer = Peer { script: c.stdin.clone(), react_n: 0, react_l: 0, mask: 0xff };
     let balanced = gen::balanced(&r.code);
@@ -580,7 +631,9 @@ pub fn generate(rng: &mut Rng, prop: &str, corpus: &[String]) -> CliCheck {
         // (a single argument may not exceed 128 KiB: long fragments always go into a file)
         if rng.chance(2, 5) || bad(f) || is_flag(f) || f.len() > 50_000 {
             let name = format!("prog{}.bf", i);
-            files.push((name.clone(), FileKind::Text(f.clone())));
+            // now and then the code comes through a named pipe (size unknown, not seekable)
+            let kind = if rng.chance(1, 10) { FileKind::Fifo(f.clone()) } else { FileKind::Text(f.clone()) };
+            files.push((name.clone(), kind));
             code_args.push(vec![rng.pick(&["-f", "--file", "-file"]).to_string(), name]);
         } else {
             code_args.push(vec![f.clone()]);
